@@ -22,3 +22,14 @@ pub proof fn lemma_outs_mono(o: Seq<TxOutputProposal>, n: int, m: int) requires 
 { if m > 0 { if n < m { lemma_outs_mono(o, n, m - 1); } else { lemma_outs_mono(o, n - 1, m - 1); } } }
 pub proof fn lemma_ins_mono(sizes: Seq<usize>, u: Seq<UtxoIndex>, n: int, m: int) requires 0 <= n <= m ensures 0 <= ins_size(sizes, u, n) <= ins_size(sizes, u, m) decreases m
 { if m > 0 { if n < m { lemma_ins_mono(sizes, u, n, m - 1); } else { lemma_ins_mono(sizes, u, n - 1, m - 1); } } }
+
+/// C13 (KF-57): what the LAST output of a proposal will hold once add_last_ada_to_last_output has swept the rest into it and the fee f is paid:
+/// everything the inputs bring, minus the other outputs, minus the fee - never below the output's own minimum.  Written from the property (balanced,
+/// minimum fee for the REAL size), not from the code.
+pub open spec fn others_ada(p: TxProposal) -> int { outputs_ada(p.tx_output_proposals@, p.tx_output_proposals@.len() as int) - p.tx_output_proposals@.last().total_ada.0 }
+pub open spec fn last_coin_after_fee(p: TxProposal, f: u64) -> int {
+    let avail = if p.total_ada.0 >= others_ada(p) { p.total_ada.0 - others_ada(p) } else { 0 };
+    let d = if avail >= p.tx_output_proposals@.last().total_ada.0 { avail } else { p.tx_output_proposals@.last().total_ada.0 as int };
+    let r = if d >= f { d - f } else { 0 };
+    if r < p.tx_output_proposals@.last().min_ada.0 { p.tx_output_proposals@.last().min_ada.0 as int } else { r }
+}
